@@ -60,7 +60,8 @@ def endJson : SessionEnd → Json
   | .outOfFuel => Json.str "out-of-fuel"
   | .loadError e => Json.str ("load-error:" ++ (match e with
       | .assertBenchDup => "assert-bench-dup" | .assertBenchId => "assert-bench-id"
-      | .benchIndex => "bench-index" | .assertRunId => "assert-run-id" | .unknownRunId => "unknown-run-id"))
+      | .benchIndex => "bench-index" | .assertRunId => "assert-run-id" | .unknownRunId => "unknown-run-id"
+      | .mixedDataPoint => "mixed-data-point"))
 
 def parseRunC? (j : Json) : Option (RunC Nat × Nat) := do
   let key ← getNat? j "key"
@@ -99,6 +100,7 @@ def parseSessionSpec? (j : Json) : Option (Sched × List Nat × List Nat × Opti
 def tableFn (t : List Nat) (i : Nat) : Nat := t.getD i i
 
 structure Scenario where
+  colsOf : Option (Nat → List (List Char))     -- run columns: when given, files are read at text level
   cfg : List (RunC Nat)
   benchOf : Nat → Nat
   H : Harness
@@ -122,20 +124,39 @@ def parseScenario? (j : Json) : Option Scenario := do
   let contents ← match getArr? j "contents" with
     | some a => a.toList.mapM (fun f => do (← asArr? f).toList.mapM parseLine?)
     | none => some (List.replicate nfiles [])
+  let colsTable : Option (List (List (List Char))) := do
+    let a ← getArr? j "cols"
+    a.toList.mapM (fun r => do (← asArr? r).toList.mapM (fun c => (asStr? c).map String.toList))
   let benches := runs.map (·.2)
   -- identities are `key`s; benchOf maps a key to the benchmark of the run with that key
   let benchOf := fun k => match runs.find? (fun r => r.1.key = k) with
     | some r => r.2
     | none => benches.getD k 0
-  pure { cfg := runs.map (·.1), benchOf := benchOf,
+  pure { colsOf := colsTable.map (fun t => fun k => t.getD k []), cfg := runs.map (·.1), benchOf := benchOf,
          H := { out := fun r inv => ((outs.getD r []).getD (inv - 1) none), buildOk := fun b => buildOk.getD b true },
          specs := specs, rtK := tableFn rtK, rtB := tableFn rtB, contents := contents }
 
+/-- consecutive measurement lines as one text blob (what is on disk between two comment lines) -/
+def segments (colsOf : Nat → List (List Char)) : List (Line Nat Nat) → List Json
+  | [] => []
+  | l :: ls =>
+    match l with
+    | .meas inv it m k rid =>
+      let txt := str (measText colsOf inv it m k rid ++ ['\n'])
+      match segments colsOf ls with
+      | (Json.arr #[Json.str "D", Json.str rest]) :: more => Json.arr #[Json.str "D", Json.str (txt ++ rest)] :: more
+      | more => Json.arr #[Json.str "D", Json.str txt] :: more
+    | other => lineJson other :: segments colsOf ls
+
 /-- per session: ending, trace, appended lines per file, run states -/
-def resultJson (before : List (List (Line Nat Nat))) (r : SessionResult Nat Nat) : Json :=
+def resultJson (colsOf : Option (Nat → List (List Char))) (before : List (List (Line Nat Nat)))
+    (r : SessionResult Nat Nat) : Json :=
   let appended := (r.contents.zip before).map (fun (a, b) =>
-    Json.mkObj [("prefix_kept", Json.bool (b.isPrefixOf a)),
-                ("appended", Json.arr ((a.drop b.length).map lineJson).toArray)])
+    Json.mkObj ([("prefix_kept", Json.bool (b.isPrefixOf a)),
+                 ("appended", Json.arr ((a.drop b.length).map lineJson).toArray)] ++
+                (match colsOf with
+                 | some f => [("segments", Json.arr (segments f (a.drop b.length)).toArray)]
+                 | none => [])))
   Json.mkObj [("end", endJson r.ending),
               ("trace", Json.arr (r.trace.map evJson).toArray),
               ("files", Json.arr appended.toArray),
@@ -143,9 +164,11 @@ def resultJson (before : List (List (Line Nat Nat))) (r : SessionResult Nat Nat)
               ("loaded", Json.arr (r.loadedRuns.map runStJson).toArray)]
 
 def runScenario (sc : Scenario) : Json :=
-  let rs := sessions sc.benchOf sc.rtK sc.rtB sc.cfg sc.H sc.specs sc.contents
+  let rs := match sc.colsOf with
+    | some f => sessionsT sc.benchOf f sc.rtK sc.rtB sc.cfg sc.H sc.specs sc.contents
+    | none => sessions sc.benchOf sc.rtK sc.rtB sc.cfg sc.H sc.specs sc.contents
   let befores := sc.contents :: rs.map (·.contents)
-  Json.mkObj [("sessions", Json.arr ((rs.zip befores).map (fun (r, b) => resultJson b r)).toArray),
+  Json.mkObj [("sessions", Json.arr ((rs.zip befores).map (fun (r, b) => resultJson sc.colsOf b r)).toArray),
               ("final", Json.arr ((rs.getLast?.map (·.contents)).getD sc.contents |>.map
                   (fun f => Json.arr (f.map lineJson).toArray)).toArray)]
 
